@@ -106,7 +106,7 @@ class Scenario:
             deliver(self.sess, self.face, self.data_for(last['t']))
         elif act == 'RespNack':
             self.nacks = getattr(self, 'nacks', 0) + 1
-            deliver(self.sess, self.face, enc.make_network_nack(last['wire'], (50, 100, 150)[(self.nacks + last['t']) % 3]))
+            deliver(self.sess, self.face, enc.make_network_nack(last['wire'], (0, 50, 100, 150)[(self.nacks + last['t']) % 4]))
         elif act == 'RespLost':
             self.sess.loop.advance_to(self.sess.loop.time() + LIFETIME / 1000.0)
         else:
